@@ -47,7 +47,8 @@ def build(spec):
         )
     discs = [PolyDisc(d) for d in sc["disciplines"]]
     cls = DOEScenario if sc["kind"] == "doe" else MDOScenario
-    scenario = cls(discs, sc["objective"], ds, formulation_name=sc["formulation"])
+    scenario = cls(discs, sc["objective"], ds, formulation_name=sc["formulation"],
+                   maximize_objective=bool(sc.get("maximize")))
     for name, ctype in sc.get("constraints", []):
         scenario.add_constraint(name, constraint_type=ctype)
     for name in sc.get("observables", []):
